@@ -221,7 +221,20 @@ func strictFunctions(c *core.Ctx, ctx context.Context, only string) {
 				patterns = append(patterns, p)
 			}
 		}
+		// union patterns: only position i nullable, and typed NULL | T | [Int] (NULL | T | String when T
+		// is a list) with no row holding the partner alternative: the argument only MAY be a T, so
+		// typecheck wraps it in a runtime type assertion whose static type must stay nullable
+		nPlain := len(patterns)
+		for i := 0; i < k; i++ {
+			p := make([]bool, k)
+			p[i] = true
+			patterns = append(patterns, p)
+		}
 		for pi, pat := range patterns {
+			unionPos := -1
+			if pi >= nPlain {
+				unionPos = pi - nPlain
+			}
 			id := fmt.Sprintf("fn-%d-%d", ci, pi)
 			if only != "" && only != id {
 				continue
@@ -232,6 +245,19 @@ func strictFunctions(c *core.Ctx, ctx context.Context, only string) {
 				t := fc.args[i].t
 				if pat[i] {
 					t = octosql.TypeSum(t, octosql.Null)
+				}
+				if i == unionPos {
+					partner := listOf(octosql.Int)
+					if fc.args[i].t.TypeID == octosql.TypeIDList {
+						partner = octosql.String
+					}
+					alts := []octosql.Type{octosql.Null, fc.args[i].t, partner}
+					for x := 1; x < len(alts); x++ {
+						for y := x; y > 0 && alts[y].TypeID < alts[y-1].TypeID; y-- {
+							alts[y], alts[y-1] = alts[y-1], alts[y]
+						}
+					}
+					t = octosql.Type{TypeID: octosql.TypeIDUnion, Union: struct{ Alternatives []octosql.Type }{Alternatives: alts}}
 				}
 				argNames[i] = fmt.Sprintf("a%d", i)
 				fields = append(fields, physical.SchemaField{Name: argNames[i], Type: t})
@@ -269,6 +295,10 @@ func strictFunctions(c *core.Ctx, ctx context.Context, only string) {
 			if perr != nil {
 				// the harness' own rendering may not be expressible (e.g. an operator the grammar lacks):
 				// counted, never judged — nothing was evaluated
+				if unionPos >= 0 {
+					c.Count("strict/union_variant_not_plannable:"+perr.Stage, 1)
+					continue
+				}
 				c.Count("strict/not_plannable:"+perr.Stage, 1)
 				c.Note("strict_not_plannable_example:"+fc.name, perr.Error()+" | "+sql)
 				continue
@@ -286,6 +316,12 @@ func strictFunctions(c *core.Ctx, ctx context.Context, only string) {
 				continue
 			}
 			if res.Err != nil {
+				if unionPos >= 0 {
+					// with a union-typed argument overload resolution may legitimately settle on the overload
+					// for the partner alternative (len over NULL | [Int] | String asserts String): no result
+					c.Count("strict/union_variant_runtime_error_not_judged", 1)
+					continue
+				}
 				c.Violation("strict-runtime-error", sig+": "+res.Err.Error(), replay)
 				continue
 			}
@@ -309,6 +345,9 @@ func strictFunctions(c *core.Ctx, ctx context.Context, only string) {
 						break
 					}
 					c.Count("strict/null_in_null_out", 1)
+					if unionPos >= 0 {
+						c.Count("strict/union_typed_null_in_null_out", 1)
+					}
 					c.Nontrivial(fmt.Sprintf("fn|%s|%v|%v", sig, pat, nullRows[ri]))
 				} else {
 					c.Count("strict/no_null_row_not_judged", 1)
